@@ -9,7 +9,7 @@ HDR = ('From Coq Require Import Arith List Bool.\nImport ListNotations.\nFrom PQ
 
 
 def keys_of(args):
-    return [(s, r) for s in args['sizes'] for r in args['rates']]
+    return [(s, str(d.get('error_type')), r) for s in args['sizes'] for d in args.get('decs', [{}]) for r in args['rates']]
 
 
 def run(rep, work, tier, seed, only=None):
@@ -35,7 +35,7 @@ def run(rep, work, tier, seed, only=None):
                     allkeys.append(k)
         kid = {k: i for i, k in enumerate(allkeys)}
         desc = {'gzip': sc['gz'], 'chain': [dict(st['args']['event'], target=st['args']['target'], save_freq=st['args']['save_freq'],
-                                                 sizes=st['args']['sizes'], rates=st['args']['rates']) for st in sc['steps']]}
+                                                 sizes=st['args']['sizes'], rates=st['args']['rates'], decoder_parameter_sets=st['args'].get('decs', [{}])) for st in sc['steps']]}
         stopped = any(st['args']['event']['kind'] != 'none' for st in sc['steps'])
         rep.case(json.dumps(desc, sort_keys=True), stopped, sample=desc if len(rep.samples) < 4 else None)
         for st in sc['steps']:
@@ -63,10 +63,10 @@ def run(rep, work, tier, seed, only=None):
             after = [] if isinstance(st['after'], str) else st['after']
             spec = keys_of(a)
             probs = []
-            bmap = {(e['size'], e['rate']): e for e in before}
+            bmap = {(e['size'], e.get('dec', 'None'), e['rate']): e for e in before}
             amap = {}
             for e in after:
-                k = (e['size'], e['rate'])
+                k = (e['size'], e.get('dec', 'None'), e['rate'])
                 if k in amap:
                     probs.append('two entries for the same simulation %s' % (k,))
                 amap[k] = e
@@ -82,7 +82,7 @@ def run(rep, work, tier, seed, only=None):
             if probs:
                 rep.violation(key, 'step %d of chain %s: %s' % (si, desc, '; '.join(probs[:2])), dict(ctx, problems=probs))
                 break
-            dlit = '[' + '; '.join('(%d, %d)' % (kid[(e['size'], e['rate'])], e['lens'][0]) for e in before) + ']'
+            dlit = '[' + '; '.join('(%d, %d)' % (kid[(e['size'], e.get('dec', 'None'), e['rate'])], e['lens'][0]) for e in before) + ']'
             slit = '[' + '; '.join(str(kid[k]) for k in spec) + ']'
             obs = '[' + '; '.join(str(amap[k]['lens'][0] if k in amap else 0) for k in spec) + ']'
             fn = 'complete_ok' if ev['kind'] == 'none' else 'stop_ok'
@@ -101,8 +101,8 @@ def run(rep, work, tier, seed, only=None):
         if ok:
             continue
         a = sc['steps'][si]['args']
-        amap = {(e['size'], e['rate']): e['lens'][0] for e in after}
-        bmap = {(e['size'], e['rate']): e['lens'][0] for e in before}
+        amap = {(e['size'], e.get('dec', 'None'), e['rate']): e['lens'][0] for e in after}
+        bmap = {(e['size'], e.get('dec', 'None'), e['rate']): e['lens'][0] for e in before}
         obs = {str(k): amap.get(k, 0) for k in spec}
         if fn == 'complete_ok':
             what = ('after the run completed the simulations have %s trials, requested %d each (on disk before the run: %s)'
